@@ -230,11 +230,42 @@ def qual_fn(fn):
     return qual_of(fn)
 
 
+def rule_hub(program, ctx, prop=P, rid="C20.hub"):
+    ctx.rule(
+        rid,
+        "one hub: the worker that becomes the notification hub is elected by the exclusive bind of the TCP port (every later asyncio.start_server fails with OSError, "
+        "'could not start'); the call therefore carries no reuse_port / reuse_address / sock option - with SO_REUSEPORT every process binds, the kernel spreads the "
+        "clients over several hubs and an id reaches only the workers on the same hub",
+        floor=1,
+    )
+    fn = program.func("nostr_relay.notifier:NotifyServer.run")
+    calls = [c for c in ast.walk(fn) if isinstance(c, ast.Call) and call_name(c).endswith("start_server")]
+    if not calls:
+        ctx.bad(finding_func(prop, rid, fn, "NotifyServer.run no longer starts the TCP server", text="def run(...) :: start_server"))
+    for c in calls:
+        share = [k.arg for k in c.keywords if k.arg in ("reuse_port", "reuse_address", "sock") and not (isinstance(k.value, ast.Constant) and k.value.value in (False, None))] + (["**"] if any(k.arg is None for k in c.keywords) else [])
+        tr = next((a for a in ancestors(c) if isinstance(a, ast.Try)), None)
+        caught = tr is not None and any(h.type is not None and "OSError" in ast.unparse(h.type) for h in tr.handlers)
+        if share:
+            ctx.bad(finding_at(prop, rid, c, f"start_server(..., {share[0]}=…): the port can be bound by several processes at once - several hubs, each serving a subset of the workers"))
+        elif not caught:
+            ctx.bad(finding_at(prop, rid, c, "a failed bind (another worker already is the hub) is not handled as `except OSError`: the worker's start-up task fails instead of joining as a client only"))
+        else:
+            ctx.ok(rid, c, "exclusive bind, OSError = another worker is the hub")
+
+
 def run(program, ctx):
+    from ..lib import rule_awaited
+
+    rule_awaited(program, ctx, P, ANCHORS)
     rule_framing(program, ctx)
     rule_recipients(program, ctx)
     rule_fanout(program, ctx)
     rule_announce(program, ctx)
+    rule_hub(program, ctx)
+    from . import c06
+
+    c06.rule_reap(program, ctx, prop=P, rid="C20.reap")
     ctx.not_decided += [
         "exactly-once under peer disconnects/reconnects and ordering between workers",
         "the LMDB writer thread not having committed when a peer looks the id up (the announcement follows the enqueue, not the commit)",
